@@ -58,11 +58,11 @@ type Gen struct {
 	// ShapeOnly: scalar leaves take their default without a choice; only pointers, slices,
 	// maps and interface slots vary (witness values for map extraction)
 	ShapeOnly bool
-	MaxDepth int
-	stack    []reflect.Type
-	ptrs     map[reflect.Type][]reflect.Value
-	Desc     []string // human-readable record of the non-default choices
-	keep     []interface{}
+	MaxDepth  int
+	stack     []reflect.Type
+	ptrs      map[reflect.Type][]reflect.Value
+	Desc      []string // human-readable record of the non-default choices
+	keep      []interface{}
 }
 
 // NewGen builds a generator.
